@@ -730,4 +730,448 @@ theorem nn_parse (h : Nat) (b : Buf) (m0 : NnNum) (o offs : Nat) (pf : PFromBody
 theorem nn_entry_new (b : Buf) (o : Nat) (ho : o ≤ b.size) : NnInv b {} o o {} :=
   ⟨Nat.le_refl _, ho, Nat.zero_le _, Nat.zero_le _, ⟨Nat.le_refl _, rfl⟩, ⟨[], rfl, fun x hx => by cases hx⟩⟩
 
+/-! ### E. what the fold says about `expires` -/
+
+/-- the span is an `expires` parameter (name in any letter case) with a non-empty value text -/
+def nnIsExp (b : Buf) (x : PSpan) : Prop :=
+  x.ps < x.pe ∧ x.vs < x.ve ∧ cmpEqL (b.extract x.ps x.pe) sExpires = true
+
+theorem nn_effect_exp_set (b : Buf) (x : PSpan) (m : NnNum) (hx : nnIsExp b x) :
+    nnEffect b x.ps x.pe x.vs x.ve m =
+      { m with hasExpires := true, expires := min (decOf (nnDigPre (b.extract x.vs x.ve).toList)) 4294967295 } := by
+  unfold nnEffect
+  rw [if_pos ⟨hx.1, hx.2.1⟩, if_pos hx.2.2]
+
+theorem nn_setQ_keep (m : NnNum) (vs ve : Nat) (val : List UInt8) :
+    (nnSetQ m vs ve val).hasExpires = m.hasExpires ∧ (nnSetQ m vs ve val).expires = m.expires := by
+  obtain ⟨_, _, o3, o4⟩ := setQ_other (nnOfNum m vs ve) val
+  exact ⟨o3, o4⟩
+
+theorem nn_effect_exp_keep (b : Buf) (x : PSpan) (m : NnNum) (hx : ¬ nnIsExp b x) :
+    (nnEffect b x.ps x.pe x.vs x.ve m).hasExpires = m.hasExpires ∧ (nnEffect b x.ps x.pe x.vs x.ve m).expires = m.expires := by
+  unfold nnEffect
+  split
+  · rename_i hc
+    split
+    · rename_i hn; exact absurd ⟨hc.1, hc.2, hn⟩ hx
+    · split
+      · exact nn_setQ_keep m _ _ _
+      · exact ⟨rfl, rfl⟩
+  · split <;> exact ⟨rfl, rfl⟩
+
+/-- no `expires` parameter among the spans: the two fields keep their initial values -/
+theorem nn_all_exp_none (b : Buf) (L : List PSpan) (m0 : NnNum) (hn : ∀ x ∈ L, ¬ nnIsExp b x) :
+    (nnAll b L m0).hasExpires = m0.hasExpires ∧ (nnAll b L m0).expires = m0.expires := by
+  induction L generalizing m0 with
+  | nil => exact ⟨rfl, rfl⟩
+  | cons x L ih =>
+    have h1 := nn_effect_exp_keep b x m0 (hn x List.mem_cons_self)
+    have h2 := ih (nnEffect b x.ps x.pe x.vs x.ve m0) (fun y hy => hn y (List.mem_cons_of_mem _ hy))
+    exact ⟨h2.1.trans h1.1, h2.2.trans h1.2⟩
+
+theorem nn_all_append (b : Buf) (L1 L2 : List PSpan) (m : NnNum) : nnAll b (L1 ++ L2) m = nnAll b L2 (nnAll b L1 m) := by
+  unfold nnAll; rw [List.foldl_append]
+
+theorem nn_all_cons (b : Buf) (x : PSpan) (L : List PSpan) (m : NnNum) :
+    nnAll b (x :: L) m = nnAll b L (nnEffect b x.ps x.pe x.vs x.ve m) := rfl
+
+/-- the last `expires` parameter among the spans decides -/
+theorem nn_all_exp_last (b : Buf) (L1 L2 : List PSpan) (x : PSpan) (m0 : NnNum) (hx : nnIsExp b x)
+    (hn : ∀ y ∈ L2, ¬ nnIsExp b y) :
+    (nnAll b (L1 ++ x :: L2) m0).hasExpires = true ∧
+    (nnAll b (L1 ++ x :: L2) m0).expires = min (decOf (nnDigPre (b.extract x.vs x.ve).toList)) 4294967295 := by
+  have h2 := nn_all_exp_none b L2 (nnEffect b x.ps x.pe x.vs x.ve (nnAll b L1 m0)) hn
+  rw [nn_all_append, nn_all_cons]
+  rw [nn_effect_exp_set b x _ hx] at h2 ⊢
+  exact ⟨h2.1, h2.2⟩
+
+/-- a list of spans either has no `expires` parameter or splits at its last one -/
+theorem nn_split_last (P : PSpan → Prop) (L : List PSpan) :
+    (∀ x ∈ L, ¬ P x) ∨ ∃ L1 x L2, L = L1 ++ x :: L2 ∧ P x ∧ ∀ y ∈ L2, ¬ P y := by
+  induction L with
+  | nil => exact Or.inl (fun x hx => by cases hx)
+  | cons a L ih =>
+    rcases ih with ih | ⟨L1, x, L2, h1, h2, h3⟩
+    · by_cases ha : P a
+      · exact Or.inr ⟨[], a, L, rfl, ha, ih⟩
+      · refine Or.inl (fun x hx => ?_)
+        rcases List.mem_cons.1 hx with hx | hx
+        · rw [hx]; exact ha
+        · exact ih x hx
+    · exact Or.inr ⟨a :: L1, x, L2, by rw [h1]; rfl, h2, h3⟩
+
+/-- **(a) `expires` at run level**, for every object satisfying `NnOut` (= every object returned by ParseNameAddrPVal
+    started from an object whose `HasExpires` was false): if `HasExpires` is reported, then there is an `expires`
+    parameter in the consumed text — name `[ps, pe)` matched case-insensitively, followed by a non-empty value text
+    `[vs, ve)` — and `Expires` is the decimal value of the LEADING DIGITS of that text, saturated at 2^32-1 (digit
+    strings of any length); when the text consists of digits only it is `min (value) (2^32-1)`.  If `HasExpires` is
+    not reported, `Expires` still has its initial value. -/
+theorem NnOut.expires {b : Buf} {m0 : NnNum} {o lim : Nat} {pf : PFromBody} (hO : NnOut b m0 o lim pf)
+    (h0 : m0.hasExpires = false) :
+    (pf.hasExpires = false ∧ pf.expires = m0.expires) ∨
+    (pf.hasExpires = true ∧ ∃ ps pe vs ve, o ≤ ps ∧ ps < pe ∧ pe < vs ∧ vs < ve ∧ ve ≤ lim ∧ lim ≤ b.size ∧
+      cmpEqL (b.extract ps pe) sExpires = true ∧
+      pf.expires = min (decOf (nnDigPre (b.extract vs ve).toList)) 4294967295 ∧
+      (AllDigits (b.extract vs ve).toList → pf.expires = min (decOf (b.extract vs ve).toList) 4294967295)) := by
+  obtain ⟨hlim, L, hacc, hL⟩ := hO
+  have e1 : pf.hasExpires = (nnAll b L m0).hasExpires := congrArg NnNum.hasExpires hacc
+  have e2 : pf.expires = (nnAll b L m0).expires := congrArg NnNum.expires hacc
+  rcases nn_split_last (nnIsExp b) L with hn | ⟨L1, x, L2, hsp, hx, hn⟩
+  · have := nn_all_exp_none b L m0 hn
+    exact Or.inl ⟨by rw [e1, this.1, h0], by rw [e2, this.2]⟩
+  · have hk := nn_all_exp_last b L1 L2 x m0 hx hn
+    rw [← hsp] at hk
+    have hxo := hL x (by rw [hsp]; exact List.mem_append_right _ List.mem_cons_self)
+    obtain ⟨s1, s2, s3, s4⟩ := hxo
+    have hv : x.pe < x.vs ∧ x.vs < x.ve ∧ x.ve ≤ lim := by
+      rcases s4 with s4 | s4
+      · have := hx.2.1; omega
+      · exact s4
+    refine Or.inr ⟨by rw [e1, hk.1], x.ps, x.pe, x.vs, x.ve, s1, s2, hv.1, hv.2.1, hv.2.2, hlim, hx.2.2, by rw [e2, hk.2], ?_⟩
+    intro hd
+    rw [e2, hk.2, nnDigPre_of_digits _ hd]
+
+/-! ### F. `q`: ANY value text -/
+
+/-- converse of `pUInt64Aux_spec`: the 64-bit parser reports no error only on digit strings, with the exact value -/
+theorem nn_pUInt64Aux_ok (l : List UInt8) (n : Nat) (e : Err) (m : Nat) (h : pUInt64Aux l n e = (m, .ok)) :
+    e = .ok ∧ AllDigits l ∧ m = decFrom n l := by
+  induction l generalizing n e with
+  | nil =>
+    rw [pUInt64Aux] at h
+    cases h
+    exact ⟨rfl, (fun c hc => by cases hc), by rw [decFrom_nil]⟩
+  | cons c cs ih =>
+    by_cases hc : nnIsDig c = true
+    · have hd := (nnIsDig_iff c).1 hc
+      rw [pUInt64Aux_cons c cs n e hd] at h
+      split at h
+      · have := (ih _ _ h).1; cases this
+      · obtain ⟨h1, h2, h3⟩ := ih _ _ h
+        refine ⟨h1, ?_, by rw [decFrom_cons]; exact h3⟩
+        intro x hx
+        rcases List.mem_cons.1 hx with hx | hx
+        · rw [hx]; exact hd
+        · exact h2 x hx
+    · have hc' : (c < 48 || c > 57) = true := by
+        cases hx : (c < 48 || c > 57) with
+        | true => rfl
+        | false => exact absurd (by unfold nnIsDig; rw [hx]; rfl) hc
+      simp only [pUInt64Aux, hc', if_true] at h
+      cases h
+
+theorem nn_pUInt64Val_ok (l : List UInt8) (m : Nat) (h : pUInt64Val l = (m, .ok)) : AllDigits l ∧ m = decOf l := by
+  have := nn_pUInt64Aux_ok l 0 .ok m h
+  exact ⟨this.2.1, this.2.2⟩
+
+/-- a text splits at its first `.` -/
+theorem nn_split_dot (val : List UInt8) :
+    ((val.takeWhile (· != 46)).length = val.length ∧ val.take (val.takeWhile (· != 46)).length = val) ∨
+    ((val.takeWhile (· != 46)).length < val.length ∧
+      val = val.take (val.takeWhile (· != 46)).length ++ 46 :: val.drop ((val.takeWhile (· != 46)).length + 1)) := by
+  induction val with
+  | nil => exact Or.inl ⟨rfl, rfl⟩
+  | cons c cs ih =>
+    by_cases hc : (c != 46) = true
+    · simp only [List.takeWhile_cons, hc, ↓reduceIte, List.length_cons, List.take_succ_cons, List.drop_succ_cons]
+      rcases ih with ih | ih
+      · exact Or.inl ⟨by rw [ih.1], by rw [ih.2]⟩
+      · refine Or.inr ⟨by omega, ?_⟩
+        rw [List.cons_append, ← ih.2]
+    · have h46 : c = 46 := by simpa using hc
+      have hc' : (c != 46) = false := by simpa using h46
+      simp only [List.takeWhile_cons, hc', Bool.false_eq_true, ↓reduceIte, List.length_nil, List.length_cons, List.take_zero,
+        List.nil_append]
+      exact Or.inr ⟨by omega, by rw [h46]; rfl⟩
+
+
+/-- `setQ` with the two conversions named -/
+theorem nn_setQ_eq (pf : PFromBody) (val : List UInt8) (u d : Nat) (e1 e2 : Err)
+    (hu : pUInt64Val (val.take (val.takeWhile (· != 46)).length) = (u, e1))
+    (hd : (if (e1 == .ok && decide ((val.takeWhile (· != 46)).length < val.length)) = true
+            then pUInt64Val (val.drop ((val.takeWhile (· != 46)).length + 1)) else (0, e1)) = (d, e2)) :
+    setQ pf val =
+      if val.length - (val.takeWhile (· != 46)).length ≤ 4 then
+        if e2 == .ok then
+          if u > 1 || d > 999 || (u == 1 && d > 0) then { pf with paramErr := .valBad, errOffs := trunc16 pf.vstart }
+          else
+            { pf with q := (u * 1000 + (if (val.takeWhile (· != 46)).length < val.length &&
+                val.length - ((val.takeWhile (· != 46)).length + 1) == 1 then d * 100
+              else if (val.takeWhile (· != 46)).length < val.length &&
+                val.length - ((val.takeWhile (· != 46)).length + 1) == 2 then d * 10 else d)) % 65536 }
+        else { pf with paramErr := e2, errOffs := trunc16 pf.vstart }
+      else { pf with paramErr := .valTooLong, errOffs := trunc16 pf.vend } := by
+  unfold setQ
+  simp only [hu, hd]
+
+
+/-- the texts accepted as a `q` value, with their value in thousandths: an integer part of digits (any number of
+    leading zeros; may be empty) worth 0 or 1, optionally followed by `.` and at most three digits, which must be zeros
+    when the integer part is 1 -/
+def NnQOk (val : List UInt8) (v : Nat) : Prop :=
+  ∃ ip fp, AllDigits ip ∧ AllDigits fp ∧ fp.length ≤ 3 ∧ decOf ip ≤ 1 ∧ (decOf ip = 1 → decOf fp = 0) ∧
+    ((val = ip ∧ fp = []) ∨ val = ip ++ 46 :: fp) ∧ v = qValue ip fp
+
+theorem nn_allDigits_nil : AllDigits [] := fun c hc => by cases hc
+
+theorem nn_decOf_nil : decOf [] = 0 := by unfold decOf; rw [decFrom_nil]
+
+theorem nn_setQ_of_ok (pf : PFromBody) (val : List UInt8) (v : Nat) (h : NnQOk val v) : setQ pf val = { pf with q := v } := by
+  obtain ⟨ip, fp, hi, hf, hl, hu, hone, hsh, rfl⟩ := h
+  rcases hsh with ⟨rfl, rfl⟩ | rfl
+  · rw [setQ_int pf val hi hu]
+    have : qValue val [] = decOf val * 1000 := by unfold qValue; rw [nn_decOf_nil]; omega
+    rw [this]
+  · exact setQ_frac pf ip fp hi hf hl hu hone
+
+/-- **`setQ` on ANY text**: either the text is an accepted `q` value and `q` becomes exactly its value in thousandths,
+    or `q` is left alone and the parameter error is set (to something other than "no error") -/
+theorem nn_setQ_cases (pf : PFromBody) (val : List UInt8) :
+    (∃ v, NnQOk val v ∧ setQ pf val = { pf with q := v }) ∨
+    (∃ e eo, e ≠ Err.ok ∧ setQ pf val = { pf with paramErr := e, errOffs := eo }) := by
+  rcases hu : pUInt64Val (val.take (val.takeWhile (· != 46)).length) with ⟨u, e1⟩
+  rcases hd : (if (e1 == .ok && decide ((val.takeWhile (· != 46)).length < val.length)) = true
+            then pUInt64Val (val.drop ((val.takeWhile (· != 46)).length + 1)) else (0, e1)) with ⟨d, e2⟩
+  have hS := nn_setQ_eq pf val u d e1 e2 hu hd
+  by_cases hlen : val.length - (val.takeWhile (· != 46)).length ≤ 4
+  · rw [if_pos hlen] at hS
+    by_cases he2 : e2 = .ok
+    · subst he2
+      simp only [beq_self_eq_true, if_true] at hS
+      by_cases hr : (decide (u > 1) || decide (d > 999) || (u == 1 && decide (d > 0))) = true
+      · rw [if_pos hr] at hS
+        exact Or.inr ⟨.valBad, _, by decide, hS⟩
+      · have hr1 : u ≤ 1 := by
+          rcases Nat.lt_or_ge 1 u with hh | hh
+          · exact absurd (by simp [hh]) hr
+          · exact hh
+        have hr2 : u = 1 → d = 0 := by
+          intro h1
+          rcases Nat.eq_zero_or_pos d with hh | hh
+          · exact hh
+          · exact absurd (by simp [h1, hh]) hr
+        have e1ok : e1 = .ok := by
+          by_cases hh : e1 = .ok
+          · exact hh
+          · have : (e1 == Err.ok) = false := by simpa using hh
+            rw [this] at hd
+            simp only [Bool.false_and, Bool.false_eq_true, if_false, Prod.mk.injEq] at hd
+            exact hd.2
+        subst e1ok
+        obtain ⟨hip, hu'⟩ := nn_pUInt64Val_ok _ _ hu
+        left
+        rcases nn_split_dot val with ⟨hk, htk⟩ | ⟨hk, hsplit⟩
+        · have hOk : NnQOk val (qValue val []) := by
+            rw [htk] at hip hu'
+            exact ⟨val, [], hip, nn_allDigits_nil, by simp, by omega, (fun _ => nn_decOf_nil), Or.inl ⟨rfl, rfl⟩, rfl⟩
+          exact ⟨_, hOk, nn_setQ_of_ok pf val _ hOk⟩
+        · have hc : (Err.ok == Err.ok && decide ((val.takeWhile (· != 46)).length < val.length)) = true := by simp [hk]
+          rw [if_pos hc] at hd
+          obtain ⟨hfp, hd'⟩ := nn_pUInt64Val_ok _ _ hd
+          have hOk : NnQOk val (qValue (val.take (val.takeWhile (· != 46)).length)
+              (val.drop ((val.takeWhile (· != 46)).length + 1))) :=
+            ⟨_, _, hip, hfp, by rw [List.length_drop]; omega, by omega, (fun h1 => by rw [← hd']; exact hr2 (by omega)),
+              Or.inr hsplit, rfl⟩
+          exact ⟨_, hOk, nn_setQ_of_ok pf val _ hOk⟩
+    · have : (e2 == Err.ok) = false := by simpa using he2
+      rw [this] at hS
+      simp only [Bool.false_eq_true, if_false] at hS
+      exact Or.inr ⟨e2, _, he2, hS⟩
+  · rw [if_neg hlen] at hS
+    exact Or.inr ⟨.valTooLong, _, by decide, hS⟩
+
+
+theorem nn_qok_unique {val : List UInt8} {v v' : Nat} (h : NnQOk val v) (h' : NnQOk val v') : v = v' := by
+  have e1 := nn_setQ_of_ok {} val v h
+  have e2 := nn_setQ_of_ok {} val v' h'
+  rw [e1] at e2
+  exact congrArg PFromBody.q e2
+
+theorem nn_nnSetQ_ok (m : NnNum) (vs ve : Nat) (val : List UInt8) (v : Nat) (h : NnQOk val v) :
+    nnSetQ m vs ve val = { m with q := v } := by
+  unfold nnSetQ
+  rw [nn_setQ_of_ok _ val v h]
+  rfl
+
+theorem nn_nnSetQ_bad (m : NnNum) (vs ve : Nat) (val : List UInt8) (h : ¬ ∃ v, NnQOk val v) :
+    ∃ e eo, e ≠ Err.ok ∧ nnSetQ m vs ve val = { m with paramErr := e, errOffs := eo } := by
+  rcases nn_setQ_cases (nnOfNum m vs ve) val with ⟨v, hv, _⟩ | ⟨e, eo, he, hs⟩
+  · exact absurd ⟨v, hv⟩ h
+  · refine ⟨e, eo, he, ?_⟩
+    unfold nnSetQ
+    rw [hs]
+    rfl
+
+/-! ### G. what the fold says about `q` -/
+
+/-- the span is a `q` parameter (name in any letter case) with a non-empty value text -/
+def nnIsQ (b : Buf) (x : PSpan) : Prop :=
+  x.ps < x.pe ∧ x.vs < x.ve ∧ cmpEqL (b.extract x.ps x.pe) sQ = true
+
+/-- … whose text is an accepted `q` value worth `v` thousandths -/
+def nnIsQGood (b : Buf) (x : PSpan) (v : Nat) : Prop := nnIsQ b x ∧ NnQOk (b.extract x.vs x.ve).toList v
+
+/-- … whose text is not an accepted `q` value -/
+def nnIsQBad (b : Buf) (x : PSpan) : Prop := nnIsQ b x ∧ ¬ ∃ v, NnQOk (b.extract x.vs x.ve).toList v
+
+theorem nn_effect_q (b : Buf) (x : PSpan) (m : NnNum) (hx : nnIsQ b x) :
+    nnEffect b x.ps x.pe x.vs x.ve m = nnSetQ m x.vs x.ve (b.extract x.vs x.ve).toList := by
+  have hl := cmpEqL_len hx.2.2
+  have t2 : cmpEqL (b.extract x.ps x.pe) sExpires = false := cmpEqL_false_of_len (by rw [hl]; decide)
+  unfold nnEffect
+  rw [if_pos ⟨hx.1, hx.2.1⟩, t2, if_neg (by decide), if_pos hx.2.2]
+
+theorem nn_effect_q_good (b : Buf) (x : PSpan) (m : NnNum) (v : Nat) (hx : nnIsQGood b x v) :
+    nnEffect b x.ps x.pe x.vs x.ve m = { m with q := v } := by
+  rw [nn_effect_q b x m hx.1, nn_nnSetQ_ok m _ _ _ v hx.2]
+
+theorem nn_effect_q_bad (b : Buf) (x : PSpan) (m : NnNum) (hx : nnIsQBad b x) :
+    ∃ e eo, e ≠ Err.ok ∧ nnEffect b x.ps x.pe x.vs x.ve m = { m with paramErr := e, errOffs := eo } := by
+  rw [nn_effect_q b x m hx.1]
+  exact nn_nnSetQ_bad m _ _ _ hx.2
+
+/-- a span that is not a `q` parameter with an accepted text leaves `q` alone -/
+theorem nn_effect_q_keep (b : Buf) (x : PSpan) (m : NnNum) (hx : ¬ ∃ v, nnIsQGood b x v) :
+    (nnEffect b x.ps x.pe x.vs x.ve m).q = m.q := by
+  by_cases hq : nnIsQ b x
+  · obtain ⟨e, eo, _, hs⟩ := nn_effect_q_bad b x m ⟨hq, fun ⟨v, hv⟩ => hx ⟨v, hq, hv⟩⟩
+    rw [hs]
+  · unfold nnEffect
+    split
+    · rename_i hc
+      split
+      · rfl
+      · split
+        · rename_i hn; exact absurd ⟨hc.1, hc.2, hn⟩ hq
+        · rfl
+    · split <;> rfl
+
+/-- the parameter error, once set, stays set -/
+theorem nn_effect_perr (b : Buf) (x : PSpan) (m : NnNum) (hm : m.paramErr ≠ .ok) :
+    (nnEffect b x.ps x.pe x.vs x.ve m).paramErr ≠ .ok := by
+  by_cases hq : nnIsQ b x
+  · by_cases hg : ∃ v, NnQOk (b.extract x.vs x.ve).toList v
+    · obtain ⟨v, hv⟩ := hg
+      rw [nn_effect_q_good b x m v ⟨hq, hv⟩]; exact hm
+    · obtain ⟨e, eo, he, hs⟩ := nn_effect_q_bad b x m ⟨hq, hg⟩
+      rw [hs]; exact he
+  · unfold nnEffect
+    split
+    · rename_i hc
+      split
+      · exact hm
+      · split
+        · rename_i hn; exact absurd ⟨hc.1, hc.2, hn⟩ hq
+        · exact hm
+    · split
+      · exact hm
+      · exact (by decide : Err.valBad ≠ Err.ok)
+
+theorem nn_all_perr (b : Buf) (L : List PSpan) (m : NnNum) (hm : m.paramErr ≠ .ok) : (nnAll b L m).paramErr ≠ .ok := by
+  induction L generalizing m with
+  | nil => exact hm
+  | cons x L ih => rw [nn_all_cons]; exact ih _ (nn_effect_perr b x m hm)
+
+/-- no `q` parameter with an accepted text among the spans: `q` keeps its initial value -/
+theorem nn_all_q_none (b : Buf) (L : List PSpan) (m0 : NnNum) (hn : ∀ x ∈ L, ¬ ∃ v, nnIsQGood b x v) :
+    (nnAll b L m0).q = m0.q := by
+  induction L generalizing m0 with
+  | nil => rfl
+  | cons x L ih =>
+    rw [nn_all_cons, ih _ (fun y hy => hn y (List.mem_cons_of_mem _ hy))]
+    exact nn_effect_q_keep b x m0 (hn x List.mem_cons_self)
+
+/-- the last `q` parameter with an accepted text decides, and `q` is exactly its value -/
+theorem nn_all_q_last (b : Buf) (L1 L2 : List PSpan) (x : PSpan) (v : Nat) (m0 : NnNum) (hx : nnIsQGood b x v)
+    (hn : ∀ y ∈ L2, ¬ ∃ v, nnIsQGood b y v) : (nnAll b (L1 ++ x :: L2) m0).q = v := by
+  rw [nn_all_append, nn_all_cons, nn_all_q_none b L2 _ hn, nn_effect_q_good b x _ v hx]
+
+/-- a `q` parameter whose text is not accepted is flagged: the parameter error is set at the end -/
+theorem nn_all_q_bad (b : Buf) (L : List PSpan) (m0 : NnNum) (x : PSpan) (hx : x ∈ L) (hb : nnIsQBad b x) :
+    (nnAll b L m0).paramErr ≠ .ok := by
+  obtain ⟨L1, L2, rfl⟩ := List.append_of_mem hx
+  rw [nn_all_append, nn_all_cons]
+  apply nn_all_perr
+  obtain ⟨e, eo, he, hs⟩ := nn_effect_q_bad b x (nnAll b L1 m0) hb
+  rw [hs]; exact he
+
+/-- a well-located span that is not a `q` parameter with a rejected text leaves the parameter error alone -/
+theorem nn_effect_perr_keep (b : Buf) (x : PSpan) (m : NnNum) {o lim : Nat} (hs : NnSpanOk o lim x) (hx : ¬ nnIsQBad b x) :
+    (nnEffect b x.ps x.pe x.vs x.ve m).paramErr = m.paramErr := by
+  by_cases hq : nnIsQ b x
+  · by_cases hg : ∃ v, NnQOk (b.extract x.vs x.ve).toList v
+    · obtain ⟨v, hv⟩ := hg
+      rw [nn_effect_q_good b x m v ⟨hq, hv⟩]
+    · exact absurd ⟨hq, hg⟩ hx
+  · unfold nnEffect
+    split
+    · rename_i hc
+      split
+      · rfl
+      · split
+        · rename_i hn; exact absurd ⟨hc.1, hc.2, hn⟩ hq
+        · rfl
+    · rename_i hc
+      split
+      · rfl
+      · rename_i hc2
+        obtain ⟨_, s2, _, s4⟩ := hs
+        rcases s4 with s4 | s4
+        · exact absurd ⟨s2, s4⟩ hc2
+        · exact absurd ⟨s2, s4.2.1⟩ hc
+
+/-- the parameter error is set only because of a `q` parameter with a rejected text -/
+theorem nn_all_perr_keep (b : Buf) (L : List PSpan) (m0 : NnNum) {o lim : Nat} (hs : ∀ x ∈ L, NnSpanOk o lim x)
+    (hn : ∀ x ∈ L, ¬ nnIsQBad b x) : (nnAll b L m0).paramErr = m0.paramErr := by
+  induction L generalizing m0 with
+  | nil => rfl
+  | cons x L ih =>
+    rw [nn_all_cons, ih _ (fun y hy => hs y (List.mem_cons_of_mem _ hy)) (fun y hy => hn y (List.mem_cons_of_mem _ hy))]
+    exact nn_effect_perr_keep b x m0 (hs x List.mem_cons_self) (hn x List.mem_cons_self)
+
+/-- **(b) `q` at run level**, for every object satisfying `NnOut`: `Q` either still has its initial value, or it is
+    EXACTLY the value in thousandths of the text of a `q` parameter of the consumed input whose text has an accepted
+    shape; never a wrapped or truncated number. -/
+theorem NnOut.q {b : Buf} {m0 : NnNum} {o lim : Nat} {pf : PFromBody} (hO : NnOut b m0 o lim pf) :
+    pf.q = m0.q ∨
+    ∃ ps pe vs ve, o ≤ ps ∧ ps < pe ∧ pe < vs ∧ vs < ve ∧ ve ≤ lim ∧ lim ≤ b.size ∧
+      cmpEqL (b.extract ps pe) sQ = true ∧ NnQOk (b.extract vs ve).toList pf.q := by
+  obtain ⟨hlim, L, hacc, hL⟩ := hO
+  have e1 : pf.q = (nnAll b L m0).q := congrArg NnNum.q hacc
+  rcases nn_split_last (fun x => ∃ v, nnIsQGood b x v) L with hn | ⟨L1, x, L2, hsp, ⟨v, hx⟩, hn⟩
+  · exact Or.inl (by rw [e1, nn_all_q_none b L m0 hn])
+  · have hk := nn_all_q_last b L1 L2 x v m0 hx hn
+    rw [← hsp] at hk
+    obtain ⟨s1, s2, s3, s4⟩ := hL x (by rw [hsp]; exact List.mem_append_right _ List.mem_cons_self)
+    have hv : x.pe < x.vs ∧ x.vs < x.ve ∧ x.ve ≤ lim := by
+      rcases s4 with s4 | s4
+      · have := hx.1.2.1; omega
+      · exact s4
+    refine Or.inr ⟨x.ps, x.pe, x.vs, x.ve, s1, s2, hv.1, hv.2.1, hv.2.2, hlim, hx.1.2.2, ?_⟩
+    rw [e1, hk]; exact hx.2
+
+/-- **(b), the flag**: the recorded spans `L` can be chosen such that, besides `NnOut`, (1) `Q` is the value of the last
+    `q` parameter of `L` with an accepted text (initial value if there is none), (2) if some `q` parameter of `L` has a
+    rejected text then `ParamErr` is set, and (3) if no `q` parameter of `L` has a rejected text `ParamErr` has its
+    initial value. -/
+theorem NnOut.q_flag {b : Buf} {m0 : NnNum} {o lim : Nat} {pf : PFromBody} (hO : NnOut b m0 o lim pf) :
+    ∃ L : List PSpan, pf.nnNum = nnAll b L m0 ∧ (∀ x ∈ L, NnSpanOk o lim x) ∧
+      (((∀ x ∈ L, ¬ ∃ v, nnIsQGood b x v) ∧ pf.q = m0.q) ∨
+        ∃ L1 x L2, L = L1 ++ x :: L2 ∧ nnIsQGood b x pf.q ∧ ∀ y ∈ L2, ¬ ∃ v, nnIsQGood b y v) ∧
+      ((∃ x ∈ L, nnIsQBad b x) → pf.paramErr ≠ .ok) ∧
+      ((∀ x ∈ L, ¬ nnIsQBad b x) → pf.paramErr = m0.paramErr) := by
+  obtain ⟨hlim, L, hacc, hL⟩ := hO
+  have e1 : pf.q = (nnAll b L m0).q := congrArg NnNum.q hacc
+  have e2 : pf.paramErr = (nnAll b L m0).paramErr := congrArg NnNum.paramErr hacc
+  refine ⟨L, hacc, hL, ?_, ?_, ?_⟩
+  · rcases nn_split_last (fun x => ∃ v, nnIsQGood b x v) L with hn | ⟨L1, x, L2, hsp, ⟨v, hx⟩, hn⟩
+    · exact Or.inl ⟨hn, by rw [e1, nn_all_q_none b L m0 hn]⟩
+    · have hk := nn_all_q_last b L1 L2 x v m0 hx hn
+      rw [← hsp] at hk
+      exact Or.inr ⟨L1, x, L2, hsp, by rw [e1, hk]; exact hx, hn⟩
+  · rintro ⟨x, hx, hb⟩
+    rw [e2]; exact nn_all_q_bad b L m0 x hx hb
+  · intro hn
+    rw [e2]; exact nn_all_perr_keep b L m0 hL hn
+
 end Sipsp
